@@ -1756,6 +1756,12 @@ fn history_cases() -> Vec<(Vec<Vec<It>>, String)> {
     // afterwards: a library that uses what the retry registered
     let last = vec![fs("lf", Shape::S4(4), 521), It::Impl { ty: Some(4), ch: vec![fs("lme", Shape::S1(4), 522)] }, usei(&[&["bm", "bmm", "deep"]]), fs("l6", Shape::S2(6), 523), t("LT", 6)];
     let mut out = vec![];
+    // the rejected library alone (no bystanders): the shape of a host that registers one item at a time
+    out.push((vec![vec![t("String", 0)], vec![t("Seconds", 1), fs("seconds", Shape::S3(1), 601)], vec![fs("to_u64", Shape::S1(0), 602)]], s("history: one type rejected for its name, another registered, the first mentioned")));
+    out.push((vec![vec![t("bool", 0)], vec![t("Seconds", 1)], vec![t("Meters", 0), fs("meters", Shape::S3(0), 603), fs("value", Shape::S1(0), 604)]], s("history: one type rejected for its name, another registered, the first again under a free name")));
+    out.push((vec![vec![fs("g", Shape::S1(2), 605)], vec![t("G", 2)], vec![fs("g", Shape::S1(2), 605)]], s("history: a function rejected for its type, the type registered, the function again")));
+    out.push((vec![vec![f("u64", 606)], vec![f("u64_", 606)], vec![f("u64", 607)]], s("history: a function named like a primitive, twice")));
+    out.push((vec![vec![t("A", 0), t("B", 0)], vec![t("A", 0)], vec![t("B", 1), fs("ab", Shape::S4(0), 608)]], s("history: type twice within a library, then one by one")));
     for (what, bad, good) in subjects {
         let mut failing = bystanders();
         failing.extend(bad.clone());
@@ -1774,12 +1780,6 @@ fn history_cases() -> Vec<(Vec<Vec<It>>, String)> {
         h.push(last_without_lt.clone());
         out.push((h, format!("history: {what}; another type; its types mentioned; retry")));
     }
-    // the rejected library alone (no bystanders): the shape of a host that registers one item at a time
-    out.push((vec![vec![t("String", 0)], vec![t("Seconds", 1), fs("seconds", Shape::S3(1), 601)], vec![fs("to_u64", Shape::S1(0), 602)]], s("history: one type rejected for its name, another registered, the first mentioned")));
-    out.push((vec![vec![t("bool", 0)], vec![t("Seconds", 1)], vec![t("Meters", 0), fs("meters", Shape::S3(0), 603), fs("value", Shape::S1(0), 604)]], s("history: one type rejected for its name, another registered, the first again under a free name")));
-    out.push((vec![vec![fs("g", Shape::S1(2), 605)], vec![t("G", 2)], vec![fs("g", Shape::S1(2), 605)]], s("history: a function rejected for its type, the type registered, the function again")));
-    out.push((vec![vec![f("u64", 606)], vec![f("u64_", 606)], vec![f("u64", 607)]], s("history: a function named like a primitive, twice")));
-    out.push((vec![vec![t("A", 0), t("B", 0)], vec![t("A", 0)], vec![t("B", 1), fs("ab", Shape::S4(0), 608)]], s("history: type twice within a library, then one by one")));
     out
 }
 
@@ -1955,6 +1955,164 @@ struct MacroCase {
     note: String,
     /// text of the `use` declarations handed to the macro, in order (for the fixtures built around them)
     uses: Option<&'static str>,
+    /// text of the whole library as handed to the macro (`stringify!` of the very tokens): the names it
+    /// declares, in order, are read from it and must be the names of `tree` (name fixtures)
+    text: Option<&'static str>,
+    /// the library declares an item with a RAW identifier (`r#loop`): either building it fails (the name as
+    /// written, `r#loop`, is not a Roto identifier) or the item is registered under the identifier without
+    /// the prefix (`tree` carries that name) — nothing else
+    raw: bool,
+}
+
+/// a library written with unusual but valid identifiers, and its text
+macro_rules! name_fixture {
+    ($($t:tt)*) => {
+        (Box::new(|| library! { $($t)* }) as Box<dyn Fn() -> roto::Library>, stringify!($($t)*))
+    };
+}
+
+/// the names a library text declares, in order: the identifier after `mod` / `fn` / `const` / `type` / `let`
+/// (a raw identifier is read with its `r#`)
+fn declared_names(text: &str) -> Vec<String> {
+    let t = use_tokens(text);
+    let mut out = vec![];
+    let mut i = 0;
+    while i < t.len() {
+        if matches!(t[i].as_str(), "mod" | "fn" | "const" | "type" | "let") && i + 1 < t.len() {
+            if t[i + 1] == "r" && t.get(i + 2).map(|x| x == "#").unwrap_or(false) && i + 3 < t.len() {
+                out.push(format!("r#{}", t[i + 3]));
+                i += 4;
+                continue;
+            }
+            out.push(t[i + 1].clone());
+            i += 2;
+            continue;
+        }
+        i += 1;
+    }
+    out
+}
+/// shape of a name: where its underscores are, whether it has digits / non-ASCII letters / a raw prefix
+fn name_shape(n: &str) -> String {
+    let (raw, n) = match n.strip_prefix("r#") { Some(x) => (true, x), None => (false, n) };
+    let lead = n.chars().take_while(|c| *c == '_').count();
+    let trail = n.chars().rev().take_while(|c| *c == '_').count();
+    format!(
+        "{}lead{} trail{}{}{}{}",
+        if raw { "raw " } else { "" }, lead.min(2), trail.min(2),
+        if n.trim_matches('_').contains("__") { " double" } else { "" },
+        if n.chars().any(|c| c.is_ascii_digit()) { " digit" } else { "" },
+        if !n.is_ascii() { " non-ascii" } else { "" },
+    )
+}
+/// the names of an item tree in document order
+fn tree_names(items: &[It], out: &mut Vec<String>) {
+    for it in items {
+        match it {
+            It::Module { name, ch } => {
+                out.push(name.clone());
+                tree_names(ch, out);
+            }
+            It::Type { name, .. } | It::Fn { name, .. } | It::Const { name, .. } => out.push(name.clone()),
+            It::Impl { ch, .. } => tree_names(ch, out),
+            It::Use { .. } => {}
+        }
+    }
+}
+
+/// `library!`-built libraries whose items have unusual but valid names: trailing underscores (one, two),
+/// a leading underscore, double underscores inside, digits, non-ASCII letters, the same spelling with and
+/// without a trailing underscore side by side in one scope (`step` / `step_` / `step__`, `units` / `units_`,
+/// `K` / `K_`, `me` / `me_`, `closure` / `closure_`) for every item kind (module, function, `let` closure,
+/// constant, type, method, constant of an impl block), and `use` paths through and to such names; then raw
+/// identifiers (a Rust keyword that is a fine Roto name, a plain identifier written raw).
+fn name_fixtures() -> Vec<MacroCase> {
+    let k = |n: &str, tag: u64| It::Const { name: s(n), ty: None, tag };
+    let mut v = vec![];
+    let (mk, text) = name_fixture! {
+        mod units_ {
+            const LIMIT_: u64 = 931;
+            fn clamp_() -> u64 { 932 }
+            fn clamp() -> u64 { 933 }
+            mod _inner {
+                fn __x__() -> u64 { 934 }
+                fn x() -> u64 { 947 }
+            }
+            mod _inner_ {
+                fn __x__() -> u64 { 948 }
+            }
+        }
+        mod units {
+            fn clamp_() -> u64 { 949 }
+        }
+        fn step() -> u64 { 935 }
+        fn step_() -> u64 { 936 }
+        fn step__() -> u64 { 937 }
+        fn _lead() -> u64 { 938 }
+        fn a__b() -> u64 { 939 }
+        fn x1_2() -> u64 { 940 }
+        fn été() -> u64 { 941 }
+        fn été_() -> u64 { 950 }
+        const K_: u64 = 942;
+        const K: u64 = 951;
+        #[clone] type T_ = Val<M<3>>;
+        impl Val<M<3>> {
+            fn me_(_v: Val<M<3>>) -> u64 { 943 }
+            fn me(_v: Val<M<3>>) -> u64 { 944 }
+            const IK_: u64 = 945;
+        }
+        let closure_ = || -> u64 { 946 };
+        let closure = || -> u64 { 952 };
+        use units_::clamp_;
+        use units_::{_inner::__x__, LIMIT_};
+    };
+    let tree = vec![
+        module("units_", vec![
+            k("LIMIT_", 931), f("clamp_", 932), f("clamp", 933),
+            module("_inner", vec![f("__x__", 934), f("x", 947)]),
+            module("_inner_", vec![f("__x__", 948)]),
+        ]),
+        module("units", vec![f("clamp_", 949)]),
+        f("step", 935), f("step_", 936), f("step__", 937), f("_lead", 938), f("a__b", 939), f("x1_2", 940),
+        f("\u{e9}t\u{e9}", 941), f("\u{e9}t\u{e9}_", 950),
+        k("K_", 942), k("K", 951),
+        It::Type { name: s("T_"), m: 3 },
+        It::Impl { ty: Some(3), ch: vec![It::Fn { name: s("me_"), shape: Shape::S1(3), tag: 943 }, It::Fn { name: s("me"), shape: Shape::S1(3), tag: 944 }, k("IK_", 945)] },
+        f("closure_", 946), f("closure", 952),
+        usei(&[&["units_", "clamp_"]]),
+        usei(&[&["units_", "_inner", "__x__"], &["units_", "LIMIT_"]]),
+    ];
+    v.push(MacroCase { mk, tree, note: s("library! names: underscores, digits, non-ASCII, side by side"), uses: None, text: Some(text), raw: false });
+    // a type and a module whose names differ in a trailing underscore only, the type's members through an impl block
+    let (mk, text) = name_fixture! {
+        mod shape_ {
+            #[clone] type Shape_ = Val<M<4>>;
+            fn new_() -> Val<M<4>> { Val(M::<4>(953)) }
+        }
+        mod shape {
+            fn area_(_s: Val<M<4>>) -> u64 { 954 }
+        }
+        impl Val<M<4>> {
+            fn area__(_s: Val<M<4>>) -> u64 { 955 }
+            fn area_(_s: Val<M<4>>) -> u64 { 956 }
+        }
+        use shape_::Shape_;
+    };
+    let tree = vec![
+        module("shape_", vec![It::Type { name: s("Shape_"), m: 4 }, It::Fn { name: s("new_"), shape: Shape::S3(4), tag: 953 }]),
+        module("shape", vec![It::Fn { name: s("area_"), shape: Shape::S1(4), tag: 954 }]),
+        It::Impl { ty: Some(4), ch: vec![It::Fn { name: s("area__"), shape: Shape::S1(4), tag: 955 }, It::Fn { name: s("area_"), shape: Shape::S1(4), tag: 956 }] },
+        usei(&[&["shape_", "Shape_"]]),
+    ];
+    v.push(MacroCase { mk, tree, note: s("library! names: type and modules with trailing underscores"), uses: None, text: Some(text), raw: false });
+    // raw identifiers, one library each
+    let (mk, text) = name_fixture! { fn r#loop() -> u64 { 961 } };
+    v.push(MacroCase { mk, tree: vec![f("loop", 961)], note: s("library! names: raw identifier of a Rust keyword (fn r#loop)"), uses: None, text: Some(text), raw: true });
+    let (mk, text) = name_fixture! { fn r#plain() -> u64 { 962 } fn plain_() -> u64 { 964 } };
+    v.push(MacroCase { mk, tree: vec![f("plain", 962), f("plain_", 964)], note: s("library! names: raw identifier of a plain name (fn r#plain)"), uses: None, text: Some(text), raw: true });
+    let (mk, text) = name_fixture! { mod r#type { fn get() -> u64 { 963 } } };
+    v.push(MacroCase { mk, tree: vec![module("type", vec![f("get", 963)])], note: s("library! names: raw identifier as a module name (mod r#type)"), uses: None, text: Some(text), raw: true });
+    v
 }
 
 /// The module tree every use-tree fixture imports from. The same name `x`
@@ -2140,9 +2298,9 @@ fn macro_case_list() -> Vec<MacroCase> {
     };
     let tree3 = vec![It::Const { name: s("V"), ty: Some(1), tag: 921 }, module("n", vec![It::Type { name: s("U"), m: 1 }])];
     let mut cases = vec![
-        MacroCase { mk: Box::new(lib1), tree: tree1, note: s("library! shape 1"), uses: None },
-        MacroCase { mk: Box::new(lib2), tree: tree2, note: s("library! shape 2"), uses: None },
-        MacroCase { mk: Box::new(lib3), tree: tree3, note: s("library! shape 3"), uses: None },
+        MacroCase { mk: Box::new(lib1), tree: tree1, note: s("library! shape 1"), uses: None, text: None, raw: false },
+        MacroCase { mk: Box::new(lib2), tree: tree2, note: s("library! shape 2"), uses: None, text: None, raw: false },
+        MacroCase { mk: Box::new(lib3), tree: tree3, note: s("library! shape 3"), uses: None, text: None, raw: false },
     ];
     for (mk, text) in use_fixtures() {
         let mut tree = use_fixture_tree();
@@ -2151,8 +2309,9 @@ fn macro_case_list() -> Vec<MacroCase> {
             tree.push(It::Use { paths });
         }
         let text1 = use_tokens(text).join(" ").replace(" :: ", "::").replace(" ,", ",").replace(" ;", ";");
-        cases.push(MacroCase { mk, tree, note: format!("library! {text1}"), uses: Some(text) });
+        cases.push(MacroCase { mk, tree, note: format!("library! {text1}"), uses: Some(text), text: None, raw: false });
     }
+    cases.extend(name_fixtures());
     cases
 }
 
@@ -2213,7 +2372,7 @@ fn type_labels() -> Vec<(std::any::TypeId, String)> {
 /// say the declaration names, and registering the expansion must make every
 /// item usable from a script at every path (declared and imported).
 fn macro_cases(rep: &mut Report, drv: &mut Driver, only: Option<&str>) {
-    for MacroCase { mk, tree, note, uses } in macro_case_list() {
+    for MacroCase { mk, tree, note, uses, text, raw } in macro_case_list() {
         if let Some(o) = only {
             if o != note {
                 continue;
@@ -2231,10 +2390,31 @@ fn macro_cases(rep: &mut Report, drv: &mut Driver, only: Option<&str>) {
             let dump = roto::verif_hooks::c18::dump_library(&lib, &type_labels());
             (lib, dump)
         }));
+        // the names the text declares are the names of the tree (the oracle reads the declaration, not a copy of it)
+        if let Some(text) = text {
+            let written = declared_names(text);
+            let mut want = vec![];
+            tree_names(&tree, &mut want);
+            let unraw: Vec<String> = written.iter().map(|n| n.strip_prefix("r#").unwrap_or(n).to_string()).collect();
+            if unraw != want {
+                rep.mismatch(&format!("{note}: the text declares {:?}, the harness's tree {:?}", written, want), input.clone());
+            }
+            for n in &written {
+                rep.class(format!("macro name shape {}", name_shape(n)));
+            }
+        }
         let Ok((lib, dump)) = built else {
-            rep.violation(&format!("{note}: building the library panicked"), "panic build macro", input.clone());
+            if raw {
+                // the name as written (`r#…`) is not a Roto identifier: the item constructor rejected it
+                rep.class("macro raw identifier: rejected when the library is built");
+                continue;
+            }
+            rep.violation(&format!("{note}: building the library panicked: {}", PANIC_MSG.lock().map(|g| g.clone()).unwrap_or_default()), "panic build macro", input.clone());
             continue;
         };
+        if raw {
+            rep.class("macro raw identifier: registered without the prefix");
+        }
         let dumped: J = serde_json::from_str(&dump).unwrap_or(J::Null);
         if let Some(text) = uses {
             let decls = parse_use_decls(text);
